@@ -89,3 +89,63 @@ func c05ValuesCases() []c05ValuesCase {
 	}
 	return out
 }
+
+// c05.callback: a value emitted by a query stays as it was emitted while the iterator advances and after it has ended,
+// also when it was produced by a registered Go function that returns (parts of) what it was handed.
+
+type c05CallbackCase struct{ Src string }
+
+var kC05Callback = run.NewKind("c05.callback", func(c *run.Ctx, t c05CallbackCase) *run.Fail {
+	opts := []gojq.CompilerOption{
+		gojq.WithFunction("pair", 2, 2, func(_ any, xs []any) any { return xs }),
+		gojq.WithFunction("tail", 1, 3, func(_ any, xs []any) any { return xs[1:] }),
+		gojq.WithFunction("wrap", 1, 1, func(v any, xs []any) any { return map[string]any{"in": v, "args": xs} }),
+		gojq.WithIterFunction("each", 1, 3, func(_ any, xs []any) gojq.Iter { return gojq.NewIter(xs...) }),
+		gojq.WithIterFunction("both", 2, 2, func(_ any, xs []any) gojq.Iter { return gojq.NewIter[any](xs, xs[:1]) }),
+	}
+	res := run.Compile(t.Src, opts...)
+	if res.Code == nil {
+		return run.Failf("%q does not compile: %v %s", t.Src, res.Err, res.Panic)
+	}
+	var first string
+	for round := 0; round < 2; round++ {
+		iter := res.Code.Run(nil)
+		var vals []any
+		var snaps []string
+		check := func(when string) *run.Fail {
+			for i, v := range vals {
+				if got := run.Canon(v); got != snaps[i] {
+					return run.Failf("%q: output #%d was %s when it was emitted and reads %s %s", t.Src, i, snaps[i], got, when)
+				}
+			}
+			return nil
+		}
+		for n := 0; n < 60; n++ {
+			v, ok := iter.Next()
+			if !ok {
+				break
+			}
+			if _, isErr := v.(error); isErr {
+				break
+			}
+			vals, snaps = append(vals, v), append(snaps, run.Canon(v))
+			if f := check(fmt.Sprintf("after output #%d", n)); f != nil {
+				return f
+			}
+		}
+		if f := check("after the iterator has ended"); f != nil {
+			return f
+		}
+		if round == 0 {
+			first = run.Canon(vals)
+		} else if run.Canon(vals) != first {
+			return run.Failf("%q: the second run gave %s, the first %s", t.Src, run.Clip(run.Canon(vals)), run.Clip(first))
+		}
+	}
+	c.Nontrivial(t.Src)
+	return nil
+})
+
+var c05CallbackSrcs = []string{"pair(1; 2), (pair(\"a\"; \"b\") | length)", "[pair(1; 2), pair(3; 4)]", "pair(1, 2; 3)", "pair(\"a\"; \"b\") | ., (\"x\" | ltrimstr(\"y\"))", "tail(1; 2; 3), tail(4; 5; 6)", "[tail(1; 2), tail(3; 4; 5)] | ., length",
+	"wrap(1), wrap(2) | ., (.args | length)", "[wrap(1, 2)] | ., map(.args)", "each(1; 2; 3) | ., (4 + 5)", "[each(1; 2), each(3; 4)]", "both(1; 2), both(3; 4)", "[both(1; 2)] | ., (.[0] | length), pair(9; 8)", "pair(1; 2) as $p | pair(3; 4) as $q | [$p, $q]",
+	"reduce (pair(1; 2), pair(3; 4)) as $p ([]; . + [$p])", "[limit(3; repeat(pair(1; 2)))] | ., (3 | tostring | ltrimstr(\"x\"))", "pair(pair(1; 2); pair(3; 4))", "[pair(1; 2)[], tail(1; 2)[]]", "path(pair(1; 2) | .[0])?, pair(5; 6)", "def f: pair(1; 2); [f, f], (7 | tostring)", "pair([1]; {a: 2}) | .[0][0] = 9, ."}
